@@ -71,7 +71,7 @@ def phase1(mfile, out, workers):
             if rc != 0:
                 st = 'nocompile'
             else:
-                rc, o = sh("unshare -n bash -c 'ip link set lo up; go test -vet=off -count=1 -timeout 150s . ./pkg/...'", cwd=wt, timeout=400)
+                rc, o = sh("unshare -n bash -c 'ip link set lo up; go test -vet=off -count=1 -timeout 45s . ./pkg/...'", cwd=wt, timeout=200)
                 st = 'survived' if rc == 0 else 'killed'
             m['status'] = st
             if st == 'killed':
